@@ -285,15 +285,17 @@ def pipeline_stream(ctx):
         packed = n * (n + 1) // 2 * es
         cap = rng.choice([packed, packed + es, 2 * packed - es, 2 * packed, 3 * packed + 1, packed // 2, 10**8])
         count = rng.randrange(2, 6)
+        # tensors of one size, or of interleaved sizes (3, 5, 3, …) sharing a bucket
+        ns = [n] * count if rng.random() < 0.5 else [rng.choice([3, 5, 2, 7]) for _ in range(count)]
         avg = rng.random() < 0.5
-        case = {'world': world, 'n': n, 'dtype': str(dtype), 'cap_bytes': cap, 'tensors': count, 'average': avg}
+        case = {'world': world, 'n': n, 'dtype': str(dtype), 'cap_bytes': cap, 'tensors': count, 'average': avg, 'sizes': ns}
 
-        def prog(rank, n=n, dtype=dtype, cap=cap, count=count, avg=avg, world=world):
+        def prog(rank, n=n, dtype=dtype, cap=cap, count=count, avg=avg, world=world, ns=ns):
             tdc = TorchDistributedCommunicator(bucket_cap_mb=(cap + 0.5) / 1e6)
             assert tdc.bucket_cap_bytes == cap, tdc.bucket_cap_bytes
             futs = []
             for i in range(count):
-                t = (sym_matrix(n, dtype, 97) + i * 100) * (rank + 1) * world
+                t = (sym_matrix(ns[i], dtype, 97) + i * 100) * (rank + 1) * world
                 futs.append(tdc.allreduce_bucketed(t, symmetric=True, average=avg))
             tdc.flush_allreduce_buckets()
             return [f.wait() if not isinstance(f, torch.Tensor) else f for f in futs]
@@ -304,10 +306,10 @@ def pipeline_stream(ctx):
             continue
         tot = sum((r + 1) * world for r in range(world))
         for i in range(count):
-            want = (sym_matrix(n, torch.float64, 97) + i * 100) * tot / (world if avg else 1)
+            want = (sym_matrix(ns[i], torch.float64, 97) + i * 100) * tot / (world if avg else 1)
             for rank in range(world):
                 got = res[rank][i]
-                if tuple(got.shape) != (n, n) or got.dtype != dtype or not torch.equal(got.to(torch.float64), want):
+                if tuple(got.shape) != (ns[i], ns[i]) or got.dtype != dtype or not torch.equal(got.to(torch.float64), want):
                     ctx.fail(f'tensor {i} on rank {rank}: the symmetric bucketed allreduce differs from the dense result',
                              dict(case, schedule_seed=ctx.seed * 7717 + trial), 'pipeline-value')
                     break
